@@ -3,6 +3,9 @@
   `std_dev`, `population_std_dev` of `impl Statistics<f64> for T: IntoIterator` equal the
   textbook two-pass definitions (Statrs/Spec/Stats.lean) for data of EVERY length, in exact
   arithmetic (carrier ℝ), and do not depend on the order of the data.
+  (`population_variance`'s `if sum.is_nan() { return NAN }` guard on the first element is dead over
+  ℝ, where `isNaN` is constantly false; its effect on carriers with NaNs is in
+  Conventions.lean / NaNPropagation.lean / FloatInst.lean.)
 -/
 import Statrs.Lemmas.Stats
 import Statrs.Props.C13.Conventions
@@ -85,7 +88,8 @@ theorem population_variance_eq (xs : List ℝ) (h : xs ≠ []) :
   match xs, h with
   | x :: t, _ =>
     obtain ⟨v', e, hv⟩ := var_run x t
-    simp only [IterStatistics.population_variance, listNext, popvar_loop_eq, lit_one, lit_zero, e]
+    simp only [IterStatistics.population_variance, listNext, rfun_isNaN, Bool.false_eq_true,
+      if_false, popvar_loop_eq, lit_one, lit_zero, e]
     rw [hv]; rfl
 
 /-- `population_std_dev xs = √(Σ (x - x̄)² / n)` for every nonempty data vector -/
